@@ -15,7 +15,7 @@ rm -f $PKG/zz_seed_demo_test.go
 suite=$(go test -vet=off -count=1 ./... 2>&1 | grep -c "^ok")
 fails=$(go test -vet=off -count=1 ./... 2>&1 | grep -c "^FAIL\|^---")
 echo "SEED $D: demo-without-change: $base | demo-with-change: $withp | suite ok-packages=$suite fail-lines=$fails"
-out=$(cd /verif && ./bin/govc -repo $SCR/repo -mirror /verif/contracts -prop "$P" -tier ${TIER:-quick} -out $SCR/work -known /dev/null -replaydir $SCR/replay -noreplay 2>&1)
+out=$(cd /verif && ./bin/govc -repo $SCR/repo -mirror /verif/contracts -prop "$P" -tier ${TIER:-quick} -out $SCR/work -known /verif/known_findings.txt -replaydir $SCR/replay -noreplay 2>&1)
 echo "$out" | grep "obligation\|ENGINE-ERROR\|UNDECIDED\|LOAD" | cut -c1-220 | head -8
 echo "$out" | tail -1
 if [ -d "/verif/bounded/$P" ]; then (cd /verif && VC_REPO="$SCR/repo" ./bounded.sh "$P" "${TIER:-quick}" /dev/null 2>&1 | head -3 | cut -c1-250); fi
